@@ -20,6 +20,8 @@ Only the ion-association clause has parts whose truth is in the shape of the cod
                is 1 + 2 OSMOT/OSUM (Pitzer) resp. 1 + OSMOT ln10/OSUM (SIT), the water activity is exp(-OSUM COSMOT/55.50837), and
                OSUM - the total solute molality - is accumulated as + M[i] over the list that the model's make_lists routine
                fills with EVERY solute present (the push that is not conditional on the charge class), not over a sub-list
+  C16.llnlconst  in LLNL mode (calc_dielectrics computes nothing) the constants a, b of the Davies / WATEQ cases are the interpolated LLNL
+               constants, the values the BASIC functions DH_A / DH_B report
   C16.lambdamult  Pitzer neutral-species lambda terms: on every path of pitzer_tidy the multiplicities satisfy ln_coef[0] + ln_coef[1] =
                4 os_coef (Euler's relation for a Gibbs-energy term of degree 2, with the factor 2 / Sum m of pitzer())
   C16.etheta   Pitzer unsymmetrical mixing: in ETHETAS  E-theta = zj zk (J(xjk) - J(xjj)/2 - J(xkk)/2) / (4 I)  and
@@ -89,6 +91,33 @@ def symbol_of(n):
     if n[0] == "Ref" and n[2] in ("local", "param"):
         return n[3]
     return None
+
+
+def llnlconst_rule(P, R):
+    """"evaluated at the reported ... Debye-Hueckel constants": with LLNL_AQUEOUS_MODEL_PARAMETERS calc_dielectrics() leaves DH_A / DH_B
+    uncomputed (zero) and the BASIC functions DH_A / DH_B report the interpolated LLNL constants a_llnl / b_llnl.  The locals a, b that
+    the Davies and WATEQ cases of gammas() use must then be those constants too: the block that interpolates a_llnl / b_llnl assigns them
+    to a and b."""
+    RULE = "C16.llnlconst"
+    R.rule(RULE, "gammas(): in LLNL mode the Davies / WATEQ constants a, b are the interpolated LLNL constants (the values DH_A / DH_B report)", minimum=2)
+    g = P.one("Phreeqc::gammas")
+    where = dict(file=g["file"], function=g["q"])
+    blk = None
+    for x in T.walk(g["body"]):
+        if x[0] == "If" and any(y[0] == "Member" and y[2] == "Phreeqc::llnl_temp" for y in T.walk(x[2])) and \
+                any(y[0] == "Bin" and y[2] == "=" and T.strip_casts(y[3])[0] == "Member" and T.strip_casts(y[3])[2] == "Phreeqc::a_llnl" for y in T.walk(x[3])):
+            blk = x
+    if blk is None:
+        R.anchor_missing(RULE, "gammas(): the block that interpolates a_llnl / b_llnl not found")
+        return
+    for loc, mem in (("a", "Phreeqc::a_llnl"), ("b", "Phreeqc::b_llnl")):
+        ok = any(y[0] == "Bin" and y[2] == "=" and T.strip_casts(y[3])[0] == "Ref" and T.strip_casts(y[3])[3] == loc and T.strip_casts(y[4])[0] == "Member" and T.strip_casts(y[4])[2] == mem
+                 for y in T.walk(blk[3]))
+        if ok:
+            R.ok(RULE, loc, "%s = %s in LLNL mode" % (loc, mem.split("::")[-1]))
+        else:
+            R.violation(RULE, loc, "in LLNL mode gammas() keeps `%s` = DH_%s, which calc_dielectrics() does not compute when LLNL parameters are defined (it stays 0): the Davies / WATEQ "
+                        "species of an LLNL database get log gamma = 0 while DH_%s reports %s" % (loc, loc.upper(), loc.upper(), mem.split("::")[-1]), line=blk[1], **where)
 
 
 def lambdamult_rule(P, R):
@@ -254,6 +283,7 @@ def _with_sqrt_symbol(tree, name):
 
 
 def run(P, R, tier):
+    llnlconst_rule(P, R)
     lambdamult_rule(P, R)
     etheta_rule(P, R)
     R.undecided += ["values of the Debye-Hueckel constants and of the ionic strength at which the formulas are evaluated",
